@@ -102,6 +102,14 @@ def set_table_hostile(sf, t, rng, ctx=None):
         if ctx is not None:
             ctx.count("rejected_update_after_set")
     reported = sf.get_semantic_constraints()
+    if not (isinstance(reported, dict) and "?" in reported and
+            all(isinstance(k, str) and isinstance(v, int) and not isinstance(v, bool) and v >= 0 for k, v in reported.items())):
+        # the library reports a table it would itself refuse (e.g. a rejected update stayed installed)
+        if ctx is not None:
+            ctx.finding("table-in-force-is-not-a-valid-table", {"requested": repr(t)[:500], "reported": repr(reported)[:500]},
+                        "get_semantic_constraints() returns a table with a missing '?', or a non-integer / negative capacity")
+        sf.set_semantic_constraints("default")
+        return sf.get_semantic_constraints()
     if isinstance(t, str):
         return reported
     x = rng.random()
